@@ -16,7 +16,7 @@ from . import expr as E
 from . import scalar as S
 from . import solve
 from . import symnp
-from .explore import Explorer, PathLimit
+from .explore import Explorer, PathLimit, PathCut
 from .scalar import R, C, SymBool, EngineGap
 from .spec import Spec
 from .symnp import SymArray, FrameViolation
@@ -218,6 +218,7 @@ class Instance:
     wall: float = None           # wall-clock limit of the whole instance (s)
     native_n: int = 8            # native run-time evaluations of the same contract in a proof instance (bounded stand-in)
     scales: tuple = (1.0,)       # input magnitudes cycled through by the native evaluations
+    shard_depth: int = 0         # > 0: split the path exploration over worker processes by decision prefixes of this length
 
     @property
     def key(self):
@@ -473,7 +474,25 @@ def _jsonable(x, depth=0):
     return repr(x)[:200]
 
 
-def run_instance(inst, tier='quick', seed=0, replay_dir=None):
+def probe_prefixes(inst):
+    """Decision prefixes (length <= inst.shard_depth) that partition the feasible paths of an instance."""
+    patches = inst.patches() if inst.patches else []
+    ex = Explorer(max_paths=10 ** 9, check_feasible=inst.check_feasible, feas_timeout=inst.feas_timeout)
+    ex.max_depth = inst.shard_depth
+    out = []
+
+    def thunk(c):
+        B = Builder('sym', rtol=inst.rtol, atol=inst.atol)
+        inp = inst.make(B)
+        ex.hyps = [f for _, f in B.hyps]
+        return inst.call(inp)
+    with symnp.patched_numpy(extra=patches):
+        for c, _ in ex.run_all(thunk):
+            out.append(list(c.decisions))       # a path that ended before the cut depth
+    return out + ex.cut_prefixes
+
+
+def run_instance(inst, tier='quick', seed=0, replay_dir=None, prefix=None, first_shard=True):
     """Symbolically execute and verify one instance.  Returns a picklable report dict."""
     t0 = time.time()
     rep = {
@@ -503,13 +522,14 @@ def run_instance(inst, tier='quick', seed=0, replay_dir=None):
     seen_q = {}
     conc_samples = []
     # concrete samples satisfying the precondition (vacuity guard + cross-check inputs)
-    for i in range(60):
+    for i in range(60 if first_shard or inst.crosscheck else 0):
         if len(conc_samples) >= inst.samples:
             break
         Bc, _ = _native_inputs(inst, {}, seed * 1000 + i)
         if Bc.valid:
             conc_samples.append(dict(Bc.used_env))
-    rep['vacuity']['valid_samples'] = len(conc_samples)
+    rep['vacuity']['valid_samples'] = len(conc_samples) if (first_shard or inst.crosscheck) else None
+    rep['shard'] = None if prefix is None else list(prefix)
     matched_samples = set()
 
     def decide(c, B, name, goal, path_len, hints, kind):
@@ -541,7 +561,7 @@ def run_instance(inst, tier='quick', seed=0, replay_dir=None):
 
     try:
         with symnp.patched_numpy(extra=patches):
-            for c, out in ex.run_all(thunk):
+            for c, out in ex.run_all(thunk, prefix=prefix or ()):
                 rep['paths'] += 1
                 B, inp = holder['B'], holder['inp']
                 rep['assumptions'] = sorted(set(rep['assumptions']) | c.assumptions_used)
@@ -604,7 +624,7 @@ def run_instance(inst, tier='quick', seed=0, replay_dir=None):
     nat_stats = {'evaluations': 0, 'valid': 0, 'clauses': 0}
     rep['native'] = nat_stats
     try:
-        n = inst.native_n * (4 if tier == 'thorough' else 1)
+        n = inst.native_n * (4 if tier == 'thorough' else 1) if first_shard else 0
         already = {v['obligation'].split('[')[0] for v in rep['violations']}
         for i in range(n):
             sc = inst.scales[i % len(inst.scales)] * inst.scale
